@@ -43,7 +43,9 @@ class _TwoStep(ScriptConn):
 class UpgradeHarness:
     horizon = 4000
 
-    def __init__(self, variant, mode, data, status=None, prelude="none", reused=False, interim=0):
+    def __init__(self, variant, mode, data, status=None, prelude="none", reused=False, interim=0, neighbours=0):
+        self.neighbours = neighbours      # while the caller holds the stream, this many requests to other origins complete on a pool that may keep
+                                          # only ONE idle connection: the surplus idle ones are retired, the switched (active) one is not touched
         self.interim = interim            # number of interim 1xx responses (103, then 100) the server sends before the switching response
         self.reused = reused              # the switch happens on a RE-USED keep-alive connection of a pool with keepalive_expiry; while the
                                           # caller holds the stream, time passes beyond that expiry and the pool serves another request
@@ -74,7 +76,8 @@ class UpgradeHarness:
         collected = bytearray()     # joined: different chunkings of the same bytes have the same future
         w = SeqWorld(chooser, router, variant=self.variant, merge_roots=[collected], segment=True, faults=0)
         cls = httpcore.ConnectionPool if self.variant == "sync" else httpcore.AsyncConnectionPool
-        pool = cls(network_backend=w.backend, **({"keepalive_expiry": 5.0} if self.reused else {}))
+        pool = cls(network_backend=w.backend, **({"keepalive_expiry": 5.0} if self.reused else {}),
+                   **({"max_connections": 4, "max_keepalive_connections": 1} if self.neighbours else {}))
         w.roots.append(pool)
         n = len(self.data)
         info = {}
@@ -97,6 +100,9 @@ class UpgradeHarness:
                         w.env.time += 6.0
                         r1 = pool.request("GET", "http://b.example/t/other")
                         info["other"] = (r1.status, r1.content)
+                    for h_ in "bcd"[:self.neighbours]:
+                        rn = pool.request("GET", f"http://{h_}.example/t/nb{h_}")
+                        info.setdefault("neighbours", []).append((rn.status, rn.content))
                     if self.prelude == "read":
                         info["body"] = r.read()
                     elif self.prelude == "iter":
@@ -131,6 +137,9 @@ class UpgradeHarness:
                         w.env.time += 6.0
                         r1 = await pool.request("GET", "http://b.example/t/other")
                         info["other"] = (r1.status, r1.content)
+                    for h_ in "bcd"[:self.neighbours]:
+                        rn = await pool.request("GET", f"http://{h_}.example/t/nb{h_}")
+                        info.setdefault("neighbours", []).append((rn.status, rn.content))
                     if self.prelude == "read":
                         info["body"] = await r.aread()
                     elif self.prelude == "iter":
@@ -195,7 +204,9 @@ class UpgradeHarness:
             viol("next-request", f"following request gave {info.get('next')}")
         if self.reused and (info.get("first") != (200, b"<first>") or info.get("other") != (200, b"<other>")):
             viol("neighbour-requests", f"the ordinary requests around the switch gave first={info.get('first')} other={info.get('other')}")
-        if len(w.net.transports) != (3 if self.reused else 2):
+        if self.neighbours and info.get("neighbours") != [(200, f"<nb{h_}>".encode()) for h_ in "bcd"[:self.neighbours]]:
+            viol("neighbour-requests", f"the requests to other origins made while the stream was held gave {info.get('neighbours')}")
+        if len(w.net.transports) != (3 if self.reused else 2) + self.neighbours:
             viol("reused", f"{len(w.net.transports)} streams opened; the following request must open a new connection")
         ex.outcome = f"ok:{len(got)}"
         return ex
@@ -262,6 +273,9 @@ def specs(tier):
             for n in ((1,) if tier == "quick" else (1, 2)):
                 for d in (("abc",) if tier == "quick" else ("", "abc")):
                     out.append(make_spec(MOD, "UpgradeHarness", variant=variant, mode=mode, data=d, interim=n))
+        # other requests complete on the same pool (keep-alive limit 1) while the switched stream is in use
+        for mode in ("101", "connect"):
+            out.append(make_spec(MOD, "UpgradeHarness", variant=variant, mode=mode, data="abc", neighbours=2 if tier == "quick" else 3))
         out.append(make_spec(MOD, "TunnelSegHarness", variant=variant, ct="tunnel"))
         if tier == "thorough":
             out.append(make_spec(MOD, "TunnelSegHarness", variant=variant, ct="tunnel-s"))
